@@ -88,6 +88,17 @@ func c15Check(in c15Input) string {
 		route = nil
 	case "deep":
 		route = []Handler{func(c Context) { c.Next() }, func(c Context) { c.Next() }, func(c Context) { raise() }}
+	case "bad-status-return":
+		// the panic is net/http's: the handler's return value names a status code no writer accepts
+		if in.Value != "str" {
+			return ""
+		}
+		route = []Handler{func() (int, string) { return 0, "x" }}
+	case "bad-status-call":
+		if in.Value != "str" {
+			return ""
+		}
+		route = []Handler{func(c Context) { c.ResponseWriter().WriteHeader(1000) }}
 	}
 	if in.Site != "action" {
 		f.Get("/boom", route...)
@@ -147,7 +158,7 @@ func TestVerifReplayC15(t *testing.T) {
 search:
 	for _, env := range []string{string(EnvTypeProd), string(EnvTypeTest), string(EnvTypeDev)} {
 		for _, v := range []string{"str", "err", "struct", "runtime", "abort"} {
-			for _, site := range []string{"before", "after-status", "after-body", "dependency", "deep", "hook", "action"} {
+			for _, site := range []string{"before", "after-status", "after-body", "dependency", "deep", "hook", "action", "bad-status-return", "bad-status-call"} {
 				in := c15Input{Env: env, Value: v, Site: site}
 				count++
 				if what := c15Check(in); what != "" {
